@@ -12,7 +12,7 @@ COQ_FILES = ("L3_Sig/Program.v", "L3_Sig/Sig.v", "L4_Eval/DdsEval.v", "L4_Eval/R
 EXTRACTED = ("ConstHash", "ConstSig")
 ALLOWED_AXIOMS = ()
 
-OUTSIDE = ("unrelated-defs", "reorder", "non-accepted-code", "unread-var", "move-module")
+OUTSIDE = ("unrelated-defs", "reorder", "non-accepted-code", "unread-var", "move-module", "move-package")
 
 
 def reach_names(prog, m, n):
@@ -38,6 +38,10 @@ def unaffected_data_functions(prog, kind, info):
         if kind in ("body", "literal"):
             if tuple(info["fn"]) in reach_names(prog, m, n):
                 continue
+        elif kind == "move-module+text":
+            # callers that spell the callee as <module>.<name> change their own text when the module is renamed
+            if any(tuple(t) in reach_names(prog, m, n) for t in info["touched"]):
+                continue
         elif kind == "var":
             if (info["mod"], info["name"]) in reads_in_reach(prog, m, n):
                 continue
@@ -55,9 +59,16 @@ def plan_program(seed, n_edits):
         kept.add(call["fn"])
     cat = P.edit_catalogue(prog, rng)
     m_old = sorted(prog["modules"])[rng.randrange(len(prog["modules"]))]
-    cat.append(("move-module", {"old": m_old}, P.move_module(prog, m_old, m_old + "b")))
+    touched = [[mn, f["name"]] for mn, m in prog["modules"].items() for f in m["funcs"]
+               if any(st.get("via") == "attr" and st["k"] == "call" and st["callee"][0] == m_old and mn != m_old for st in f["stmts"])]
+    # renaming a module changes the text of callers that spell the callee as <module>.<name>: that is an edit of their bodies
+    cat.append(("move-module+text" if touched else "move-module", {"old": m_old, "touched": touched}, P.move_module(prog, m_old, m_old + "b")))
+    p_pkg = copy.deepcopy(prog)
+    p_pkg["pkg"] = prog["pkg"] + "b"
+    cat.append(("move-package", {"new": p_pkg["pkg"]}, p_pkg))
     rng.shuffle(cat)
-    chosen = [e for e in cat if e[0] in OUTSIDE] + [e for e in cat if e[0] not in OUTSIDE][:n_edits]
+    chosen = [e for e in cat if e[0] in OUTSIDE or e[0] == "move-module+text"] + \
+        [e for e in cat if e[0] not in OUTSIDE and e[0] != "move-module+text"][:n_edits]
     ev = [("prog", prog), ("act", call), ("act", call), ("restart",), ("act", call)]
     f = P.find_func(prog, *prog["root"])
     if f.get("annot"):
